@@ -198,6 +198,9 @@ def run_kani_unit(name, workdir, tier, prop):
                 text, line = extract_item(REPO, e["file"], e["sel"], within=e.get("within"))
             for a, b in e.get("replace", []):
                 text = text.replace(a, b)
+            if e.get("drop_attrs"):
+                # T3: derive / serde attributes have no meaning in the stub crate (no proc macros there)
+                text = re.sub(r"#\[(?:derive|serde)\((?:[^()]|\([^()]*\))*\)\]\s*", "", text)
             with open(os.path.join(dst, e["out"]), "a" if e.get("append") else "w") as f:
                 f.write(e.get("prefix", "") + text + e.get("suffix", "") + "\n")
             out["extracted"].append(dict(file=e["file"], item=e.get("sel") or e.get("macro_body"), line=line))
